@@ -1,7 +1,7 @@
 (* Dispatch.v — single entry point [run : sx -> sx] used by the OCaml driver
    and by the in-Coq extraction self-check.  A case is [L [A fn; arg]]. *)
 From Coq Require Import List NArith Bool.
-From PTA Require Import Sx Glob Wire Label.
+From PTA Require Import Sx Glob Wire Label Puml.
 Import ListNotations.
 Open Scope N_scope.
 
@@ -20,5 +20,7 @@ Definition run (c : sx) : sx :=
   | L [A 17; arg] => run_plot_labels arg
   | L [A 18; arg] => run_draw_kwargs arg
   | L [A 20; arg] => run_scan arg
+  | L [A 21; arg] => run_puml arg
+  | L [A 22; arg] => run_diagram arg
   | _ => sx_err
   end.
